@@ -4,6 +4,8 @@ from vlib import *  # noqa
 
 # property -> (family cfg, rule prefixes judged by this check, ops that must have been exercised successfully)
 FAMILY = {
+    "C06": dict(fam="issue", prefixes=("C06.",), need=[("Callback", "tokens"), ("CodeExchange", "tokens"), ("Refresh", "tokens"), ("Poll", "tokens"),
+                                                      ("ClientCreds", "tokens"), ("JWTBearer", "tokens"), ("TokenExchange", "tokens")]),
     "C03": dict(fam="authorize", prefixes=("C03.",), need=[("Authorize", "login"), ("Authorize", "redirErr"), ("Authorize", "page"), ("Authorize", "json"),
                                                           ("Callback", "code"), ("Callback", "tokens"), ("Callback", "redirErr"), ("Callback", "page")]),
     "C04": dict(fam="code", prefixes=("C04.",), need=[("CodeExchange", "tokens"), ("CodeExchange", "json"), ("Callback", "code")]),
@@ -68,7 +70,11 @@ def op_pipeline(pid, tier, seed, fam, wd, focus=None):
     with open(os.path.join(wd, "behaviours.ndjson"), "w") as f:
         for i, b in enumerate(behs):
             cfgd = dict(b["cfg"])
-            cfgd.update(reqobj=True, s256=True, cc=True, te=True, dev=True, alg="ES256")
+            cfgd.update(reqobj=True, s256=True, alg="ES256")
+            for k in ("cc", "te", "dev"):
+                cfgd.setdefault(k, True)
+            if fam == "issue":      # the signing algorithm decides the hash of at_hash / c_hash
+                cfgd["alg"] = ["ES256", "RS256", "ES384", "EdDSA", "ES512", "PS256"][i % 6]
             f.write(json.dumps(dict(id=f"mbt-{i}", cfg=cfgd, steps=b["steps"])) + "\n")
     res["behaviours"] = len(behs)
     # 3. real code
